@@ -59,13 +59,14 @@ func c01Err(r *vh.Rng, c byte, what string) error {
 }
 
 type c01Target struct {
-	mu      sync.Mutex
-	partial bool
-	plans   []c01Plan
-	attempt int
-	addrIdx map[string]int
-	log     *[]string
-	rng     *vh.Rng
+	mu       sync.Mutex
+	partial  bool
+	plans    []c01Plan
+	attempt  int
+	addrIdx  map[string]int
+	aliasIdx map[string]int // "original recipient" a failure report names instead (c01OriginalRcpts)
+	log      *[]string
+	rng      *vh.Rng
 }
 
 type c01Delivery struct {
@@ -77,19 +78,83 @@ type c01Delivery struct {
 
 type c01DeliveryPartial struct{ *c01Delivery }
 
-// lookupAddr finds a recipient by its lookup key (reports may spell the domain as U-label or A-label).
+// lookupAddr finds the recipient a failure report names.  Recipients are identified by the exact
+// spelling they were queued with (two spellings of one mailbox are two recipients); a report
+// renders the domain as U-labels (dsn: address.SelectIDNA), so the second try is the unique
+// recipient with that rendering (c01OriginalRcpts makes renderings unique).
 func (t *c01Target) lookupAddr(a string) (int, bool) {
 	if i, ok := t.addrIdx[a]; ok {
 		return i, true
+	}
+	if i, ok := t.aliasIdx[a]; ok {
+		return i, true
+	}
+	n, hit := 0, 0
+	for cand, i := range t.addrIdx {
+		if r, err := address.ToUnicode(cand); err == nil && r == a {
+			n++
+			hit = i
+		}
+	}
+	if n == 1 {
+		return hit, true
+	}
+	if n > 1 {
+		return 0, false
 	}
 	k, _ := address.ForLookup(a)
 	for cand, i := range t.addrIdx {
 		ck, _ := address.ForLookup(cand)
 		if ck == k {
-			return i, true
+			n++
+			hit = i
 		}
 	}
-	return 0, false
+	return hit, n == 1
+}
+
+// c01OriginalRcpts: a failure report names a recipient with its domain rendered as U-labels, so
+// "u@xn--e1afmkfd.example" and "u@пример.example" (two recipients) would read the same.  Recipients
+// whose renderings coincide get an "original recipient" (MsgMetadata.OriginalRcpts, what a rewriting
+// pipeline leaves behind): the report then names that one, which is unique.
+func c01OriginalRcpts(bt *c01Target, addrs map[int]string) map[string]string {
+	byRender := map[string][]int{}
+	for id, a := range addrs {
+		r, err := address.ToUnicode(a)
+		if err != nil {
+			r = a
+		}
+		byRender[r] = append(byRender[r], id)
+	}
+	var orig map[string]string
+	for _, ids := range byRender {
+		if len(ids) < 2 {
+			continue
+		}
+		for _, id := range ids {
+			if orig == nil {
+				orig = map[string]string{}
+				bt.aliasIdx = map[string]int{}
+			}
+			alias := fmt.Sprintf("orig%d@alias.example", id)
+			orig[addrs[id]] = alias
+			bt.aliasIdx[alias] = id
+		}
+	}
+	return orig
+}
+
+// c01HasSpellings: do two of the recipients spell one mailbox (equal under address.ForLookup)?
+func c01HasSpellings(addrs map[int]string) bool {
+	seen := map[string]bool{}
+	for _, a := range addrs {
+		k, _ := address.ForLookup(a)
+		if seen[k] {
+			return true
+		}
+		seen[k] = true
+	}
+	return false
 }
 
 func (t *c01Target) ev(s string) {
@@ -276,7 +341,43 @@ func c01ParsePlans(s string, rcpts []int) []c01Plan {
 	return out
 }
 
-var c01AddrForms = []string{"u%d@example.org", "user%d@xn--e1afmkfd.example", "ю%d@пример.example", "U%d@EXAMPLE.ORG"}
+// Recipient id = mailbox number b (1..6) + 6*v, v = spelling (0..3).  The four spellings of one
+// mailbox are equal under address.ForLookup (case of the local part, case of the domain, A-labels vs
+// U-labels, NFC vs NFD) and are four DIFFERENT recipients for the queue.
+var c01AddrForms = [6][4]string{
+	{"user1@xn--e1afmkfd.example", "user1@пример.example", "USER1@xn--e1afmkfd.example", "User1@ПРИМЕР.example"},
+	{"ю2@пример.example", "Ю2@пример.example", "ю2@xn--e1afmkfd.example", "ю2@Пример.EXAMPLE"},
+	{"U3@EXAMPLE.ORG", "u3@example.org", "U3@example.org", "u3@EXAMPLE.ORG"},
+	{"u4@example.org", "U4@example.org", "u4@EXAMPLE.ORG", "U4@Example.Org"},
+	{"\u04395@example.org", "\u0438\u03065@example.org", "\u04195@example.org", "\u0418\u03065@EXAMPLE.ORG"},
+	{"u6@b\u00fccher.example", "u6@bu\u0308cher.example", "u6@xn--bcher-kva.example", "U6@B\u00dcCHER.example"},
+}
+
+func c01Addr(r int) string { return c01AddrForms[(r-1)%6][((r-1)/6)%4] }
+
+// c01CheckForms: the spellings of one mailbox are pairwise different strings with one lookup key,
+// different mailboxes have different keys.
+func c01CheckForms(t *testing.T) {
+	keys := map[string]int{}
+	for b, forms := range c01AddrForms {
+		k0, _ := address.ForLookup(forms[0])
+		if prev, ok := keys[k0]; ok {
+			t.Fatalf("mailboxes %d and %d share the key %q", prev+1, b+1, k0)
+		}
+		keys[k0] = b
+		for i, a := range forms {
+			k, err := address.ForLookup(a)
+			if err != nil || k != k0 {
+				t.Fatalf("spelling %q of mailbox %d: key %q (%v), want %q", a, b+1, k, err, k0)
+			}
+			for _, o := range forms[:i] {
+				if o == a {
+					t.Fatalf("spelling %q of mailbox %d twice", a, b+1)
+				}
+			}
+		}
+	}
+}
 
 func c01Run(out *vh.Out, op string, seed uint64) {
 	toks := strings.Fields(op)
@@ -294,11 +395,17 @@ func c01Run(out *vh.Out, op string, seed uint64) {
 	var evlog []string
 	tgt := &c01Target{partial: partial, plans: plans, addrIdx: map[string]int{}, log: &evlog, rng: rng}
 	var addrs []string
+	addrOf := map[int]string{}
 	for _, r := range rcpts {
-		a := fmt.Sprintf(c01AddrForms[r%len(c01AddrForms)], r)
+		a := c01Addr(r)
+		if _, dup := tgt.addrIdx[a]; dup {
+			panic("C01 run: recipient twice in " + op)
+		}
 		tgt.addrIdx[a] = r
 		addrs = append(addrs, a)
+		addrOf[r] = a
 	}
+	origRcpts := c01OriginalRcpts(tgt, addrOf)
 
 	dir, err := os.MkdirTemp("", "verif-c01-")
 	if err != nil {
@@ -327,7 +434,7 @@ func c01Run(out *vh.Out, op string, seed uint64) {
 		from = ""
 	}
 	id, _ := module.GenerateMsgID()
-	meta := &module.MsgMetadata{ID: id, OriginalFrom: from, DontTraceSender: true, SMTPOpts: smtp.MailOptions{UTF8: true}}
+	meta := &module.MsgMetadata{ID: id, OriginalFrom: from, DontTraceSender: true, SMTPOpts: smtp.MailOptions{UTF8: true}, OriginalRcpts: origRcpts}
 	ctx := context.Background()
 	d, err := q.Start(ctx, meta, from)
 	if err != nil {
@@ -439,6 +546,9 @@ func c01Run(out *vh.Out, op string, seed uint64) {
 	out.Stat(fmt.Sprintf("attempts.%d", attempts))
 	out.Stat("kind." + toks[3])
 	out.StatN("rcpts", len(rcpts))
+	if c01HasSpellings(addrOf) {
+		out.Stat("run.spellings")
+	}
 }
 
 // c01CheckRetries: a recipient that appears in attempt k+1 must have ended attempt k with a
@@ -548,6 +658,7 @@ func TestVerifC01(t *testing.T) {
 	out := vh.Open("c01")
 	defer out.Close()
 	dontRecover = false
+	c01CheckForms(t)
 	if ops := vh.Replay(); ops != nil {
 		for _, op := range ops {
 			if strings.HasPrefix(op, "C01 run") {
@@ -581,12 +692,37 @@ func TestVerifC01(t *testing.T) {
 			perm[j], perm[k] = perm[k], perm[j]
 		}
 		rc := perm[:nr]
+		spellings := r.Chance(35)
+		if spellings {
+			// several spellings of one mailbox (2-4 recipients) and up to two other recipients,
+			// themselves any spelling of their mailbox; any order
+			vs := []int{0, 1, 2, 3}
+			for j := range vs {
+				k := j + r.Intn(len(vs)-j)
+				vs[j], vs[k] = vs[k], vs[j]
+			}
+			rc = nil
+			for _, v := range vs[:2+r.Intn(3)] {
+				rc = append(rc, perm[0]+6*v)
+			}
+			for _, b := range perm[1 : 1+r.Intn(3)] {
+				rc = append(rc, b+6*r.Intn(4))
+			}
+			for j := range rc {
+				k := j + r.Intn(len(rc)-j)
+				rc[j], rc[k] = rc[k], rc[j]
+			}
+			nr = len(rc)
+		}
 		var rs []string
 		for _, x := range rc {
 			rs = append(rs, strconv.Itoa(x))
 		}
 		maxTries := 1 + r.Intn(4)
 		faulty := []int{10, 30, 60, 90}[r.Intn(4)]
+		if spellings {
+			faulty = []int{30, 50}[r.Intn(2)] // different outcomes for the spellings of one mailbox
+		}
 		var plans []string
 		for a := 0; a < maxTries; a++ {
 			plans = append(plans, c01GenPlan(r, nr, faulty))
